@@ -295,7 +295,11 @@ func genLegacyLayout(t *rapid.T, root, repo string, simpleOnly bool) *legacyLayo
 	if !simpleOnly && rapid.IntRange(0, 4).Draw(t, "lookAlikeTag") == 0 {
 		p1, _ := buildImage(mtImage, mtConfig, cfg, 2, nil, nil, nil, "", map[string]string{"platform": "1"})
 		p2, _ := buildImage(mtImage, mtConfig, cfg, 2, nil, nil, nil, "", map[string]string{"platform": "2"})
-		d1, d2 := l.blob("sha256", p1), l.blob("sha256", p2)
+		d1, d2 := l.blob("sha256", p1), dig("sha256", p2)
+		sparse := rapid.Bool().Draw(t, "sparseCopy") // a copy of one platform only, as other tools make it: the second child is listed but not there
+		if !sparse {
+			l.blob("sha256", p2)
+		}
 		iraw, _ := buildIndex(mtIndex, []mdesc{{MediaType: mtImage, Digest: d1, Size: int64(len(p1))}, {MediaType: mtImage, Digest: d2, Size: int64(len(p2))}}, nil, "", map[string]string{"multi": "platform"})
 		id := l.blob("sha256", iraw)
 		tag := "sha256-" + id[7:]
@@ -305,7 +309,7 @@ func genLegacyLayout(t *rapid.T, root, repo string, simpleOnly bool) *legacyLayo
 		l.index = append(l.index, mdesc{MediaType: mtIndex, Digest: id, Size: int64(len(iraw)), Annotations: map[string]string{annRefNameL: tag}})
 		l.tags[tag] = id
 		l.manifests[id] = mtIndex
-		l.desc = append(l.desc, "ordinary index under a tag of the fallback form")
+		l.desc = append(l.desc, fmt.Sprintf("ordinary index under a tag of the fallback form (sparse copy: %v)", sparse))
 	}
 	// unrelated content: a tagged image, an untagged image, a nested index, a stray blob
 	for i, n := 0, rapid.IntRange(0, 2).Draw(t, "nUnrelated"); i < n; i++ {
